@@ -884,7 +884,7 @@ func (f *fx) exec(in ssa.Instruction, edges []*edge) {
 		for _, r := range x.Results {
 			rs = append(rs, termVal(f.term(r)))
 		}
-		f.returns = append(f.returns, &retEdge{cond: f.curReach, state: f.cloneState(f.cur), results: rs, pos: x.Pos()})
+		f.returns = append(f.returns, &retEdge{cond: f.curReach, state: f.cloneState(f.cur), results: rs, pos: x.Pos(), block: f.curBlock, idx: f.curIdx})
 	case *ssa.Jump:
 		f.addEdge(f.curBlock, f.curBlock.Succs[0], f.curReach)
 	case *ssa.If:
